@@ -699,6 +699,11 @@ func (p *Parser) GroupByClause() ([]ColumnReference, error) {
 			break
 		}
 		ret = append(ret, cr)
+		// grouping columns are a comma separated list; a comma must be
+		// followed by another column
+		if p.match(COMMA) && !p.curType(IDENT) {
+			return ret, p.unexpectedTypeErr(IDENT)
+		}
 	}
 
 	return ret, nil
